@@ -251,6 +251,7 @@ func TestReplay_copyAST(t *testing.T) {
 	if m := caObRe.FindStringSubmatch(obName); m != nil {
 		clause = m[1]
 	}
+	clause = replayClause(clause)
 	wantType, wantField := "", ""
 	if m := caTypeRe.FindStringSubmatch(text); m != nil {
 		wantType = m[1]
